@@ -1,6 +1,8 @@
 (* C05 — Non-interference: uninvolved keys and mappings are left alone.
    Statements only; proofs in TM.MapperForeign, TM.MapperEmpty, TM.MapperProv,
    TM.MapperStay. *)
+From TM Require ModifierSpec SpecTables.
+From TMGen Require Modifiers.
 From TM Require Import Base Mapper Monitors Trace MapperInv MapperProps MapperFire MapperNoAbs
                        MapperProv MapperForeign MapperEmpty MapperStay.
 
@@ -84,6 +86,15 @@ Proof.
   intros a L h e m t H1 H2. apply outputs_stay; [apply for_layout_ok_wf; exact H1 | apply has_absorbing_noabs; exact H2].
 Qed.
 Print Assumptions C05_in_effect_outputs_stay.
+
+(* "Modifier" in this property means one of the eight standard modifiers
+   (SpecTables.spec_modifier_keys: left/right Shift, Ctrl, Alt, Meta): the
+   classification the code uses (is_action_key, regenerated from /repo on every
+   run) is exactly that one.  (The theorems above hold for every classification.) *)
+Theorem C05_modifiers_are_the_standard_ones :
+  forall k : N, TMGen.Modifiers.is_action_key k = negb (SpecTables.spec_is_modifier k).
+Proof. exact ModifierSpec.is_action_key_is_spec. Qed.
+Print Assumptions C05_modifiers_are_the_standard_ones.
 
 (* Non-vacuity: CAPSLOCK+J -> LEFT with CAPSLOCK silenced, LEFTSHIFT -> LEFTCTRL
    (a modifier-remapping); X (45) is foreign.  While LEFTSHIFT is held (LEFTCTRL
